@@ -8,7 +8,7 @@ from mc.engine import Harness, Result, V
 from mc.heapfp import try_fingerprint
 from mc.world import reset_globals
 
-PATHS = ['a.x', 'a.y', 'a.b.x', 'a.b.y', 'a.param', 'x', 'c.y', 'a.b.c.x']
+PATHS = ['a.x', 'a.y', 'a.b.x', 'a.b.y', 'a.param', 'x', 'c.y', 'a.b.c.x', 'a.b.param']
 BOT = '<unresolved>'
 
 
@@ -25,6 +25,8 @@ def dep_sets(tier):
     singles = [(p,) for p in PATHS]
     pairs = [(p, 'x') for p in PATHS if p != 'x']
     multi = [tuple(c) for c in itertools.combinations(SUBPATHS, 2)] + [('a.b.x', 'a.x'), ('a.x', 'a.b.x', 'c.y')]
+    # the sub-object itself next to a path through it (two watchers on the same parameter of the parent)
+    multi += [('a', 'a.x'), ('a', 'a.b.x')]
     return singles + pairs, multi
 
 
@@ -77,8 +79,13 @@ class C07(Harness):
         import param
         reset_globals()
         log = []
-        Leaf = type('Leaf', (param.Parameterized,), {'x': param.Parameter(0), 'y': param.Parameter(0), 'c': param.Parameter(None)})
-        Mid = type('Mid', (param.Parameterized,), {'x': param.Parameter(0), 'y': param.Parameter(0), 'b': param.Parameter(None)})
+        # value-based equality, as many model classes define it: objects on a path must be told apart by identity
+        def veq(self, other):
+            return type(other) is type(self) and (self.x, self.y) == (other.x, other.y)
+        Leaf = type('Leaf', (param.Parameterized,), {'x': param.Parameter(0), 'y': param.Parameter(0), 'c': param.Parameter(None),
+                                                       '__eq__': veq, '__hash__': param.Parameterized.__hash__})
+        Mid = type('Mid', (param.Parameterized,), {'x': param.Parameter(0), 'y': param.Parameter(0), 'b': param.Parameter(None),
+                                                     '__eq__': veq, '__hash__': param.Parameterized.__hash__})
 
         flags = {'raise': False}
 
@@ -152,7 +159,7 @@ class C07(Harness):
             cur = model[cur][p]
             if i < len(parts) - 1:
                 chain.append(cur)
-        return tuple(chain), ('v', cur), False
+        return tuple(chain), ('v', cur), isinstance(cur, str) and cur in model       # (an object-valued leaf: comparisons involve Parameterized values)
 
     def on_path(self, model, deps):
         keep = {'T'}
